@@ -120,6 +120,5 @@ void harness(void)
         VWITNESS(off2 + len2 <= off1);                                                   /* goes back */
         VWITNESS(off1 + len1 == total && len1 == total);
     }
-    }
 #endif
 }
